@@ -519,6 +519,20 @@ Proof.
       h_method h_uri h_req h_status h_resp h_taint]. rewrite Ev, Ht. reflexivity.
 Qed.
 
+(* field by field, as the property lists them *)
+Corollary write_read_fields (e : exchange) (bs : bytes) (e' : exchange) :
+  readable e = true -> write e = Ok bs -> read bs = Ok e' ->
+  e_ver e' = e_ver e /\ e_uri e' = e_uri e /\ e_method e' = e_method e /\
+  e_status e' = e_status e /\ e_sig e' = e_sig e /\ e_payload e' = e_payload e /\
+  e_reqh e' = canon_headers (e_reqh e) /\ e_resph e' = canon_headers (e_resph e) /\
+  e_taint e' = false.
+Proof.
+  intros Hr Hw Hrd. rewrite (write_read e bs Hr Hw) in Hrd. inversion Hrd; subst e'.
+  destruct (readable_inv e Hr) as (_ & _ & _ & Ht & _).
+  cbn [canon_exchange e_ver e_uri e_method e_status e_sig e_payload e_reqh e_resph e_taint].
+  repeat split; try reflexivity. exact Ht.
+Qed.
+
 (* ---- C02 canon_idempotent, fixpoint --------------------------------------------------------- *)
 Lemma lt_name_canon_field (a b : bytes * list bytes) :
   lt_name (canon_field a) (canon_field b) = lt_name a b.
